@@ -54,7 +54,7 @@ Example C16_example : unescape_single (esc_single [97; 39; 92; 34; 10; 233]) = S
 Proof. vm_compute. reflexivity. Qed.
 
 (* ---------- from the path text (KeyParse.v, KeyAddr.v) ---------- *)
-From JP Require Import Peg Grammar Tree Actions Eval EvalInv1 EvalInv4 EvalTop KeyDefs KeyParse KeyAddr DecFacts IdxParse ChainParse ChainAddr.
+From JP Require Import Peg Grammar Tree Actions Eval EvalInv1 EvalInv4 EvalTop KeyDefs KeyParse KeyAddr DecFacts IdxParse WildParse ChainParse ChainAddr.
 Local Open Scope N_scope.
 Open Scope list_scope.
 
@@ -139,8 +139,9 @@ Example C16_dot_path_example :
 Proof. split; vm_compute; reflexivity. Qed.
 
 (* ---------- every node of the document (IdxParse.v, ChainParse.v, ChainAddr.v) ---------- *)
-(* a path of ANY number of steps — name steps in any of the three spellings and index steps [digits]
-   (KeyDefs.chain_path) — is accepted and builds the chain of single steps ... *)
+(* a path of ANY number of steps — name steps in any of the three spellings, index steps [digits] and wildcard
+   steps .* / [*] (KeyDefs.chain_path) — is accepted and builds the chain of steps (the first node carrying the
+   value-group flag of the whole path) ... *)
 Theorem C16_chain_parses : forall cfg parse_float regex_ok s r, forallb step_ok (s :: r) = true ->
   parse_with cfg parse_float regex_ok jsonpath_grammar (chain_path (s :: r)) = ParseOk (chain_node cfg s r).
 Proof. exact parse_chain_path. Qed.
@@ -153,7 +154,7 @@ Print Assumptions C16_chain_parses.
 Theorem C16_member_addressable_at_depth : forall cfg parse_float regex_ok ffun afun regex_match,
   (forall f v w, small v -> ffun f v = Some w -> small w) ->
   (forall f l w, Forall small l -> afun f l = Some w -> small w) ->
-  forall s r doc v st, forallb step_ok (s :: r) = true -> small doc -> ok st ->
+  forall s r doc v st, forallb step_ok (s :: r) = true -> no_wild (s :: r) = true -> small doc -> ok st ->
   nav_chain doc (s :: r) = Some v ->
   exists t, parse_with cfg parse_float regex_ok jsonpath_grammar (chain_path (s :: r)) = ParseOk t /\
             fst (eval_run ffun afun regex_match t doc st) = OOk [chain_result cfg (s :: r) v].
@@ -162,7 +163,7 @@ Print Assumptions C16_member_addressable_at_depth.
 Theorem C16_absent_at_depth : forall cfg parse_float regex_ok ffun afun regex_match,
   (forall f v w, small v -> ffun f v = Some w -> small w) ->
   (forall f l w, Forall small l -> afun f l = Some w -> small w) ->
-  forall s r doc st, forallb step_ok (s :: r) = true -> small doc -> ok st ->
+  forall s r doc st, forallb step_ok (s :: r) = true -> no_wild (s :: r) = true -> small doc -> ok st ->
   nav_chain doc (s :: r) = None ->
   exists t e, parse_with cfg parse_float regex_ok jsonpath_grammar (chain_path (s :: r)) = ParseOk t /\
               fst (eval_run ffun afun regex_match t doc st) = OErr e.
